@@ -258,9 +258,27 @@ def parseProbeOuts : Nat → List String → Option (List ProbeOut)
     let rest ← parseProbeOuts n r
     pure (⟨a, b, c, d⟩ :: rest)
 
-/-- Known design-level findings are reported as OK with a `known-candidate-<key>` tag until they
-are entered in known_findings.json (then: `withSpec true key msg`). -/
-def candidate (v : Verdict) (key : String) : Verdict := tagOnce v ("known-candidate-" ++ key)
+/-- Recorded known findings (known_findings.json, matched by key). The key is attached *after* every other
+spec judgement of the case (`finalize`), so that a different violation of the same property on the same case
+keeps its own key and is reported as new. -/
+def candidate (v : Verdict) (key : String) : Verdict := tagOnce v ("finding:" ++ key)
+
+def findingMsg (key : String) : String :=
+  if key == "translate-applied-to-vector" then
+    "apply(vector) adds the translation column of the matrix (implicit homogeneous 1, `// TODO w=0.0`): not the linear part"
+  else if key == "viewport-disjoint-not-empty" then
+    "requested viewport ∩ frame is empty, yet the installed viewport has positive area (abs_diff) and maps NDC outside the frame"
+  else if key == "viewport-second-call-loses-frame" then
+    "second viewport() call intersected with the first viewport's size instead of the frame"
+  else "known finding"
+
+def finalize (v : Verdict) : Verdict :=
+  match v.spec with
+  | some _ => v
+  | none =>
+    match v.tags.find? (fun t => t.startsWith "finding:") with
+    | some t => let k := (t.drop 8).toString; { v with spec := some (k, findingMsg k) }
+    | none => v
 
 def handleChain (specs : List Spec) (probes : List (V3 Q)) (impl : List String) : Verdict :=
   let n := specs.length
@@ -393,23 +411,25 @@ def handleInv (specs : List Spec) (impl : List String) : Verdict :=
     let cond2 : Option Q := if dE == 0 then none else some (fro2 a * fro2 adj / (dE * dE))
     let wellCond := match cond2 with | some c => decide (c ≤ 1000000) | none => false
     let v := v.addTag (if dE == 0 then "singular" else if wellCond then "cond<=1e3" else "cond>1e3")
-    let nearGuard := ratAbs dE ≤ 4 * epsF32 && ratAbs dE * 4 ≥ epsF32
+    -- the guard `det² > ε²·Π|rowᵢ|²` (d46db54) in exact arithmetic, and the zone around it where the f32 rounding of
+    -- the determinant (absolute error of the order of ε·Π|rowᵢ|, i.e. of the threshold itself) decides: |det| ≤ 20·threshold
+    let thr := epsF32 * epsF32 * a.scaleSqr
+    let nearGuard := decide (dE * dE ≤ 400 * thr)
+    let v := if nearGuard then v.addTag "guard-zone" else v
     let model := inverse epsF32 a
     match rest with
     | tok :: outs =>
       if tok.startsWith "panic:" then
         let v := v.addTag tok
+        -- judged against the property on the implementation's own matrix: a well-conditioned invertible transform
+        -- whose determinant is comfortably above the rounding zone must be inverted, not refused
+        let v := v.withSpec (wellCond && !nearGuard) "inverse-det-guard-rejects-well-conditioned"
+          s!"inverse() panics ({tok}) although det = {ratApprox dE}, Π|rowᵢ| ≈ √{ratApprox a.scaleSqr} and cond ≤ 1e3"
         match model with
-        | .panic _ =>
-          -- both refuse. Judge the refusal against the property: a well-conditioned invertible
-          -- transform must be invertible by the code.
-          if wellCond && !nearGuard then candidate v "inverse-det-guard-rejects-well-conditioned"
-          else if wellCond then { v with amb := true }
-          else v
+        | .panic _ => if wellCond then { v with amb := true } else v
         | .ok _ =>
           if nearGuard || !wellCond then { v with amb := true }
-          else (v.withDiff true "implementation panics, model inverts").withSpec true "inverse-panics-on-well-conditioned"
-            s!"inverse() panics ({tok}) although det = {ratApprox dE} and cond ≤ 1e3"
+          else v.withDiff true "implementation panics, model inverts"
       else if tok != "ok" then bad "inv status"
       else
         match floats 48 outs with
@@ -471,7 +491,7 @@ def handleM3 (f : List Q) (impl : List String) : Verdict :=
       v.withSpec (M3.toList (match m3? ((o.drop 18).take 9) with | some t => t.transpose | none => a) != M3.toList a) "transpose-not-involutive" "3x3 transpose"
   | _, _, _ => bad "m3"
 
-def handle (case impl : List String) : Verdict :=
+def handle' (case impl : List String) : Verdict :=
   match case with
   | "chain" :: n :: rest =>
     match n.toNat? with
@@ -504,5 +524,7 @@ def handle (case impl : List String) : Verdict :=
     let v := (Verdict.ok ["tr"]).withDiff (impl != want) "transpose moves the wrong elements"
     v.withSpec (impl != want) "transpose-wrong" "transpose()[i][j] is not self[j][i]"
   | _ => bad "unknown op"
+
+def handle (case impl : List String) : Verdict := finalize (handle' case impl)
 
 end Retro.Drv.C09
